@@ -909,6 +909,11 @@ func c16Case(ctx *Ctx, v cty.Value, ct cty.Type, tag string) {
 		ctx.Add("mp.unmarshal", dimpl, tree.wire(), tw)
 	}
 	ulit := "b, _ := " + lit + "; msgpack.Unmarshal(b, " + c16TyLit(ct) + ")"
+	// the hypotheses of C16.roundtrip_covers must imply that the real round trip is fine
+	realOK := !dp && derr == nil && c16Approx(dec, v) == nil
+	if oracleOK {
+		ctx.Add("mp.fitsimp", encBool(realOK), w, tw, oracle, encBool(realOK))
+	}
 	if dp || derr != nil {
 		out, sig := dwhy, "panic"
 		if dp && strings.Contains(dwhy, "inconsistent") && strings.Contains(dwhy, "element types") {
